@@ -44,6 +44,8 @@ type Dispatch struct {
 	Funcs map[string]*DispFunc // GmmMessageDecode, GsmMessageDecode, GmmMessageEncode, GsmMessageEncode
 	Plain *PlainDecode
 	PEnc  *PlainEncode
+	// Semantic: per function, how dispatch_sem.go decided it (or why it could not)
+	Semantic map[string]string
 }
 
 type PlainDecode struct {
@@ -83,6 +85,7 @@ func ExtractDispatch(w *World, cs *CodecSet) *Dispatch {
 			}
 		}
 	}
+	refineDispatch(w, d)
 	return d
 }
 
